@@ -389,16 +389,28 @@ def check_var_binding(idx: Index, rep: Report, rule_id: str = "C10.R6") -> None:
         v = cls.method("verify")
         if v is None:
             raise AnalysisError(f"{cname}.verify not found")
-        tests = [n.test for n in v.node.body if isinstance(n, ast.If)]
-        if len(tests) != 1:
-            raise AnalysisError(f"{cname}.verify: expected one top-level 'already bound' test")
-        for t in tests:
-            is_none_test = isinstance(t, ast.Compare) and isinstance(t.ops[0], (ast.IsNot, ast.Is)) and isinstance(t.comparators[0], ast.Constant) and t.comparators[0].value is None and not isinstance(t.left, ast.Constant)
-            is_member_test = isinstance(t, ast.Compare) and isinstance(t.ops[0], (ast.In, ast.NotIn)) and unparse(t.left) == "self.name"
-            if is_none_test or is_member_test:
-                r.ok(v.fq, f"{v.loc} `{unparse(t)}`")
-            else:
-                r.fail(v.fq, Finding(rule_id, v.fq, "binding-by-truthiness", f"`{unparse(t)}` treats a variable bound to a falsy value (empty tuple, ArrayAttr([]), IntegerAttr(0)) as unbound: a later, different occurrence re-binds it instead of being compared", v.loc))
+        # the binding call (`set_*variable`) and the comparison against the stored value are each guarded by the
+        # "already bound" test, whatever the statement layout; the facts about the lookup value are classified
+        setters = [c for c in calls_in(v.node) if (call_attr(c) or "").startswith("set_") and "variable" in (call_attr(c) or "")]
+        if not setters:
+            raise AnalysisError(f"{cname}.verify: no set_*variable call")
+        lookups = {n.targets[0].id for n in walk_local(v.node) if isinstance(n, ast.Assign) and len(n.targets) == 1 and isinstance(n.targets[0], ast.Name) and isinstance(n.value, ast.Call) and (call_attr(n.value) or "").startswith("get_") and "variable" in (call_attr(n.value) or "")}
+        seen = False
+        for sc in setters:
+            for t, pol in guard_facts(v.node, sc):
+                tt = unparse(t)
+                inner = t.operand if isinstance(t, ast.UnaryOp) and isinstance(t.op, ast.Not) else t
+                about_lookup = (isinstance(inner, ast.Name) and inner.id in lookups) or (isinstance(inner, ast.Call) and (call_attr(inner) or "").startswith("get_") and "variable" in (call_attr(inner) or ""))
+                is_none_test = isinstance(t, ast.Compare) and len(t.ops) == 1 and isinstance(t.ops[0], (ast.IsNot, ast.Is)) and isinstance(t.comparators[0], ast.Constant) and t.comparators[0].value is None and ((isinstance(t.left, ast.Name) and t.left.id in lookups) or isinstance(t.left, ast.Call))
+                is_member_test = isinstance(t, ast.Compare) and len(t.ops) == 1 and isinstance(t.ops[0], (ast.In, ast.NotIn)) and unparse(t.left) == "self.name"
+                if is_none_test or is_member_test:
+                    seen = True
+                    r.ok(v.fq, f"{v.loc} `{tt}` ({'T' if pol else 'F'}) guards the binding")
+                elif about_lookup:
+                    seen = True
+                    r.fail(v.fq, Finding(rule_id, v.fq, "binding-by-truthiness", f"`{tt}` treats a variable bound to a falsy value (empty tuple, ArrayAttr([]), IntegerAttr(0)) as unbound: a later, different occurrence re-binds it instead of being compared", v.loc))
+        if not seen:
+            raise AnalysisError(f"{cname}.verify: no 'already bound' test guards the binding call")
 
 
 def check_every_def_verified(idx: Index, rep: Report) -> None:
